@@ -20,7 +20,7 @@ LEVEL = 'proof'
 DRIVER = 'drv_c08'
 HARNESS = 'c08.cpp'
 SOURCES = ['src/pointset/KdTree.cpp']
-PROOF_MODULES = ['RomeaProofs.Properties.C08']
+PROOF_MODULES = ['RomeaProofs.Properties.C08', 'RomeaProofs.Bridge.C08', 'RomeaProofs.Bridge.C08Metric', 'RomeaProofs.Bridge.C08Cor']
 TRUSTED = [
     'harness/c08.cpp reads the built nanoflann index through the index class\'s own typed (protected) members -- root_node, '
     'Node::sub.divfeat/divlow/divhigh, Node::lr.left/right, child1/child2, root_bbox, vind -- by pointers to members formed in '
@@ -41,6 +41,47 @@ ASSUMPTIONS = [
 EXPLANATION = ('proof that the modelled nanoflann search returns the k smallest squared distances on every well-formed '
                'tree and that the modelled build yields a well-formed tree + bit-exact differential correspondence of '
                'build (tree dump) and search + exact brute-force probe')
+
+# ------------------------------------------------------------------ stage G: nanoflann::KNNResultSet translated (DESIGN.md 2.5b)
+# The translation unit is the vendored header alone plus one explicit instantiation (member functions of a class template have
+# a body in clang's AST only when instantiated); `-I <repo>/include` makes it the CURRENT header of the checked tree.
+# `pointer_arrays`: the members `indices` / `dists` (raw pointers into the caller's arrays) are the arrays themselves, Lean lists
+# owned by the state; `dists[i]` / `dists[i] = x` are `List.getD` / `List.set` (plain encoding: an out-of-range access, undefined
+# behaviour in C++, reads the default / writes nothing). Integers are unbounded `Int`s (no `unsigned_wrap`): `i - 1` occurs under
+# `i > 0`, `capacity - 1` under `capacity != 0` in `init`; `worstDist()` with capacity 0 reads `dists[SIZE_MAX]` in C++ (undefined)
+# and `dists[0]`-by-`Int.toNat` here — the bridge theorem about it assumes `0 < capacity`.
+_KNN = 'KNNResultSet<double, unsigned long, unsigned long>'
+BRIDGE_SPEC = {
+    'id': 'C08',
+    'sources': [],
+    'headers': ['romea_core_common/pointset/kdtree/nanoflann.hpp'],
+    'extra': ['template class nanoflann::KNNResultSet<double, size_t, size_t>;',
+              # `accum_dist` is a member TEMPLATE of L2_Adaptor<T, DataSource>: instantiated on a data source that is only declared
+              # (accum_dist does not touch `data_source`)
+              'namespace nanoflann { struct BridgeDataSource { double kdtree_get_pt(size_t, int) const; }; }',
+              'template double nanoflann::L2_Adaptor<double, nanoflann::BridgeDataSource, double>::accum_dist<double, double>'
+              '(const double, const double, int) const;',
+              'template double nanoflann::L2_Adaptor<double, nanoflann::BridgeDataSource, double>::operator()'
+              '(const double*, const size_t, size_t, double) const;'],
+    # `data_source.kdtree_get_pt(idx, dim)` (the point accessor of the data-set adaptor, a const member function of a const object)
+    # is a function-typed parameter of the translated metric
+    'uninterpreted': {'kdtree_get_pt': {'member': True}},
+    'filter': 'nanoflann',
+    'pointer_arrays': True,
+    'vector_encoding': 'plain',
+    'functions': [{'cxx': 'KNNResultSet::KNNResultSet', 'record': _KNN}, {'cxx': 'KNNResultSet::init', 'record': _KNN},
+                  {'cxx': 'KNNResultSet::size', 'record': _KNN}, {'cxx': 'KNNResultSet::full', 'record': _KNN},
+                  {'cxx': 'KNNResultSet::addPoint', 'record': _KNN}, {'cxx': 'KNNResultSet::worstDist', 'record': _KNN},
+                  {'cxx': 'L2_Adaptor::accum_dist'}, {'cxx': 'L2_Adaptor::operator()'}],
+}
+
+
+def regen(ctx):
+    import bridge
+    info = {}
+    info.update(bridge.regen_bridge(ctx, BRIDGE_SPEC))
+    return info
+
 
 TYPES = ['c2f', 'c2d', 'c3f', 'c3d', 'h2f', 'h2d', 'h3f', 'h3d']
 ULPS_PROBE = 1024
